@@ -56,25 +56,25 @@ func (c newCol) data() interface{} {
 		}
 		return out
 	case "cint":
-		v := 0
+		v := 7 // also for a column without rows: the value is then never seen, the count must still be honoured
 		if c.Len > 0 {
 			v = c.Col.I[0]
 		}
 		return qframe.ConstInt{Val: v, Count: c.Len}
 	case "cfloat":
-		v := 0.0
+		v := 2.5
 		if c.Len > 0 {
 			v = c.Col.F[0]
 		}
 		return qframe.ConstFloat{Val: v, Count: c.Len}
 	case "cbool":
-		v := false
+		v := true
 		if c.Len > 0 {
 			v = c.Col.B[0]
 		}
 		return qframe.ConstBool{Val: v, Count: c.Len}
 	case "cstring":
-		var v *string
+		var v *string // (a value here would have to respect a declared enum list)
 		if c.Len > 0 {
 			v = c.Col.S[0]
 		}
@@ -98,7 +98,7 @@ func supported(form string) bool {
 }
 
 var legalNames = []string{"a", "b", "c", "d", "e", "f", "A", "a b", "a,b", "ä", "x'", "'x", "\xff\xfe", "col\"q", "1", " "}
-var illegalNames = []string{"", "'abc'", "\"abc\"", "$x", "$", "'a b'"}
+var illegalNames = []string{"", "'abc'", "\"abc\"", "$x", "$", "'a b'", "'a\nb'", "\"a\nb\"", "'\xff'", "\"'\"", "'\n'", "$\n"}
 
 func genNewCol(t *rapid.T, name string, n int, wide bool) newCol {
 	c := newCol{Name: name, Len: n}
@@ -479,7 +479,7 @@ func TestC08Project(t *testing.T) {
 				}
 			case "copy":
 				src := rapid.SampledFrom(append(append([]string(nil), names...), "nosuchcol")).Draw(t, "src")
-				dst := rapid.SampledFrom(append(append([]string(nil), names...), "n1", "n2", "", "'q'", "$v")).Draw(t, "dst")
+				dst := rapid.SampledFrom(append(append([]string(nil), names...), "n1", "n2", "", "'q'", "$v", "'q\nq'")).Draw(t, "dst")
 				if src == "nosuchcol" && rapid.Bool().Draw(t, "samedst") {
 					dst = "nosuchcol" // Copy(X, X) with an unknown X is still an unknown source
 				}
@@ -490,7 +490,7 @@ func TestC08Project(t *testing.T) {
 					wantErr = true
 				case dst == src:
 					want = in
-				case dst == "" || dst == "'q'" || dst == "$v":
+				case dst == "" || dst == "'q'" || dst == "$v" || dst == "'q\nq'":
 					wantErr = true
 				default:
 					c := in.MustCol(src)
